@@ -67,8 +67,13 @@ def instance_cases(policies, partial=False):
             pol.update(release_taskgraphs=chains, time_discretization=disc, plan_ahead=12 * disc if draw(st.booleans()) else -1)
         else:
             pol.update(time_discretization=disc, plan_ahead=12 * disc if draw(st.booleans()) else -1)
-        return {"seed": draw(st.integers(0, 999)), "now": now, "cluster": cluster, "profiles": profiles, "graphs": graphs, "running": running,
+        case = {"seed": draw(st.integers(0, 999)), "now": now, "cluster": cluster, "profiles": profiles, "graphs": graphs, "running": running,
                 "scheduled": [], "completed": [], "policy": pol, "chains": chains}
+        if pname != "ILP" and draw(st.integers(0, 2)) == 0:
+            # the policy object has already served an earlier invocation (one short-deadline task at now - 1): the
+            # TetriSched planners keep no state between invocations that could matter for the plan
+            case["reused_policy"] = True
+        return case
 
     return s()
 
@@ -217,7 +222,21 @@ def execute(case):
     res = CaseResult()
     V = res.violations
     pname = case["policy"]["name"]
-    rec = SC.invoke(case)
+    prepare = None
+    if case.get("reused_policy"):
+        def prepare(policy, state):
+            from pbt import statebuilder
+
+            warm = {"seed": case["seed"], "now": max(0, case["now"] - 1), "cluster": case["cluster"], "profiles": case["profiles"],
+                    "graphs": [{"name": "WARM", "jobs": [{"name": "WARM_j", "profile": 0, "children": [], "conditional": False, "terminal": False, "probability": 1.0}],
+                                "release_time": 0, "deadline": max(0, case["now"] - 1) + 2}],
+                    "running": [], "scheduled": [], "completed": []}
+            ws = statebuilder.build_state(warm)
+            with solvercap.quiet():
+                policy.schedule(ws["now"], ws["workload"], ws["worker_pools"])
+            solvercap.reset()
+
+    rec = SC.invoke(case, prepare=prepare)
     if rec["discard"]:
         res.discard = rec["discard"]
         return res
